@@ -748,6 +748,11 @@ def complete_ensemble_sift(X, nensembles=4, ensemble_noise=.2,
     res = p.starmap(sift, args)
     noise = noise - np.array([r[:, 0] for r in res]).T
 
+    # The first IMF has been computed above
+    layer = 1
+    if max_imfs is not None and layer >= max_imfs:
+        continue_sift = False
+
     while continue_sift:
 
         proto_imf = X - imf.sum(axis=1)[:, None]
@@ -765,6 +770,8 @@ def complete_ensemble_sift(X, nensembles=4, ensemble_noise=.2,
         res = p.starmap(sift, args)
         noise = noise - np.array([r[:, 0] for r in res]).T
 
+        layer += 1
+
         pks, _ = _find_extrema(imf[:, -1])
         if len(pks) < 2:
             continue_sift = False
@@ -774,8 +781,6 @@ def complete_ensemble_sift(X, nensembles=4, ensemble_noise=.2,
 
         if np.abs(next_imf).mean() < sift_thresh:
             continue_sift = False
-
-        layer += 1
 
     p.close()
 
